@@ -49,7 +49,8 @@ def program():
           {'n': 'strict', 'args': [['n', ['p', 'Integer', {'ge': 0, 'le': 9}]], ['t', ['p', 'Unicode', {'max_len': 6}]]], 'ret': I},
           {'n': 'poly', 'args': [['n', I]], 'ret': ['c', 'P', {}]},
           {'n': 'pa', 'args': [['n', I]], 'ret': ['c', 'W', {}]},
-          {'n': 'ord', 'args': [['n', I]], 'ret': ['c', 'Ord', {}]}]
+          {'n': 'ord', 'args': [['n', I]], 'ret': ['c', 'Ord', {}]},
+          {'n': 'desc', 'args': [['p', ['c', 'P', {}]]], 'ret': U}]
     # a subclass whose own member asks to be ordered first: the protocols that order fields have work to do (and to cache)
     Ord = {'n': 'Ord', 'base': 'P', 'fields': [['k', ['p', 'Integer', {'order': 0}]], ['z', U]]}
     return {'tns': TNS, 'classes': [P, Q, W, Ord], 'services': [{'n': 'S', 'methods': ms}]}
@@ -72,6 +73,8 @@ REQS = {
     'poly2': ('POST', '', soap('poly', '<t:n>2</t:n>')),
     'pa1': ('POST', '', soap('pa', '<t:n>1</t:n>')),
     'pa2': ('POST', '', soap('pa', '<t:n>2</t:n>')),
+    'obj1': ('POST', '', soap('desc', '<t:p><t:x>5</t:x></t:p>')),
+    'obj2': ('POST', '', soap('desc', '<t:p><t:s>only-s</t:s></t:p>')),
     'jo1': ('POST', '', b'{"ord": {"n": 1}}'),
     'jo2': ('POST', '', b'{"ord": {"n": 2}}'),
     'je1': ('POST', '', b'{"echo": {"a": 1, "s": "first"}}'),
@@ -89,6 +92,8 @@ DRIVERS = {
     'poly|poly': (['poly1', 'poly2'], None, True, NARROW + ['protocol/xml.py'], RPC),
     'prot_attrs|prot_attrs': (['pa1', 'pa2'], None, False, ['protocol/_base.py', 'server/wsgi.py'], RPC),
     'wsdl|wsdl|rpc': (['wsdl', 'wsdl', 'echo1'], None, False, ['server/wsgi.py'], ['server/wsgi.py', 'protocol/_base.py']),
+    # two first instantiations of the same class, each with one member absent: the model layer's per-class caches
+    'object|object': (['obj1', 'obj2'], None, False, ['model/complex.py', 'server/wsgi.py'], RPC + ['model/complex.py', 'model/_base.py']),
     # the dict-document family (JSON, positional objects): per-protocol caches of field order and attributes
     'json-ordered|json-ordered': (['jo1', 'jo2'], None, False, ['protocol/_base.py', 'server/wsgi.py'], JSONF, 'json'),
     'json-ordered|json-rpc': (['jo1', 'je1'], 'soft', False, ['protocol/_base.py', 'server/wsgi.py'], JSONF, 'json'),
@@ -154,6 +159,7 @@ class World(object):
             return '%s/%d' % (s, a)
         b.rec.script['echo'] = ('call', echo)
         b.rec.script['other'] = ('call', lambda ctx, p: p)
+        b.rec.script['desc'] = ('call', lambda ctx, p: 'x=%r s=%r' % (p.x, p.s))
         b.rec.script['strict'] = ('ret', 1)
         Q, P = b.classes['Q'], b.classes['P']
         W = b.classes['W']
